@@ -558,7 +558,7 @@ func checkC18() fw.Check {
 		Gen: func(tier string, seed int64) []fw.Case {
 			n := 120
 			if tier == "thorough" {
-				n = 4000
+				n = 12000
 			}
 			var cases []fw.Case
 			for i := 0; i < n; i++ {
